@@ -10,6 +10,7 @@
 package pump
 
 import (
+	"slices"
 	"bufio"
 	"context"
 	"fmt"
@@ -81,6 +82,9 @@ type World struct {
 	Peers []*PP
 	// Pending are events peers have emitted and the torrent has not handled yet, in order of emission.
 	Pending []peer.TorEvent
+	// ReverseCollect: events of different peers that are in transit at the same
+	// time reach the torrent in the opposite order (last peer first)
+	ReverseCollect bool
 }
 
 type Caps struct {
@@ -349,7 +353,11 @@ func (w *World) Collect() {
 		}
 		break
 	}
-	for _, pp := range w.Peers {
+	order := append([]*PP(nil), w.Peers...)
+	if w.ReverseCollect {
+		slices.Reverse(order)
+	}
+	for _, pp := range order {
 		pp.mu.Lock()
 		for _, e := range peer.VerifTakeEvents(pp.P) {
 			w.Pending = append(w.Pending, e)
